@@ -480,17 +480,18 @@ def check_close(ctx, prog):
     cfg = cfgm.CFG(f)
 
     def step(nd, st):
+        # state: (the descriptor was closed, the handle member holds an invalid value)
         if nd.kind != 'ev' or nd.e is None:
             return st
         e = nd.e
         if e.get('k') == 'call' and e.get('fn') in ('close', 'closesocket') and not e.get('clsp'):
-            return 'closed'
-        if e.get('k') == 'bin' and e.get('op') == '=' and strip_lv(e['x']).get('f') == '_handle' and (const_val(e['y']) or 0) < 0:
-            return 'invalidated'
+            return (True, st[1])
+        if e.get('k') == 'bin' and e.get('op') == '=' and strip_lv(e['x']).get('f') == '_handle':
+            return (st[0], (const_val(e['y']) or 0) < 0)
         return st
-    reached, _ = cfgm.dataflow(cfg, 'open', step)
+    reached, _ = cfgm.dataflow(cfg, (False, False), step)
     exits = reached.get(cfg.exit.id, set())
-    ctx.check('closed' not in exits and 'invalidated' in exits, 'C14.close', f['pq'], 'close:handle invalidated after closing', fwhere(f), '_handle = -1 follows ::close on every path',
+    ctx.check(any(c for c, _i in exits) and all(i for c, i in exits if c), 'C14.close', f['pq'], 'close:handle invalidated after closing', fwhere(f), 'every path that closes the descriptor leaves `_handle` negative',
               'Socket_::close() can return with the descriptor closed but the handle still set: the destructor (and explicit close + drop, as in SocketServer) closes the same number again, hitting a descriptor recycled for another connection')
     d = [g for g in prog.functions if g.get('kind') == 'dtor' and g.get('cls') == 'asl::Socket_' and g.get('body')]
     if d:
